@@ -14,6 +14,7 @@ spec_def('reduced', ['v', 'sh', 'group', 'average', 'symmetric'],
          '(filltriu(sh, smul(1 / group_size(group), allsum(triu(v), group))) if average else filltriu(sh, allsum(triu(v), group))) '
          'if symmetric else (smul(1 / group_size(group), allsum(v, group)) if average else allsum(v, group))')
 spec_def('sent_numel', ['sh', 'symmetric'], '(sh[0] * (sh[0] + 1)) // 2 if symmetric else numel(sh)')
+spec_def('nothing_pending', ['tdc'], 'all(tdc._allreduce_buckets[g] is None for g in tdc._allreduce_buckets)')
 spec_def('is_square', ['sh'], 'len(sh) == 2 and sh[0] == sh[1]')
 
 COMM_PRE = [('tensor_present', 'tensor is not None'), ('member_of_group', 'in_group(group)')]
@@ -58,6 +59,6 @@ contract(
 )
 contract(
     'kfac.distributed:TorchDistributedCommunicator.flush_allreduce_buckets', props=['C08', 'C03'],
-    ensures=[], modifies=['self._allreduce_buckets', '*._tensors', '*._futures', '*._size', '*._communicated',
+    ensures=[('nothing_left_pending', 'nothing_pending(self)')], modifies=['self._allreduce_buckets', '*._tensors', '*._futures', '*._size', '*._communicated',
                           'ghost:trace', 'ghost:next_sid'], trusted=True,
 )
